@@ -208,6 +208,11 @@ def search(seed, n):
     return dict(found=found, evaluations=ev, expected_distribution=stats)
 
 
+def entry(seed, tier, broken):
+    """entry point for tools/check.py (props.py: search=("search.validity", "entry"))"""
+    return search(seed, 40000 if (tier == "thorough" or broken) else 1500)
+
+
 def replay(rep):
     import json
 
